@@ -965,6 +965,42 @@ def stream_pipeline(ctx, reqs, pending, only_idx=None):
                 if after[0] == 'ok' and (batch2[0] != 'ok' or not np.array_equal(np.asarray(batch2[1])[0], np.asarray(after[1]), equal_nan=True)):
                     ctx.fail(case2, {'why': 'get_frames after the description changed differs from get_frame'}, site='get_frames/changed-description')
                 call(lambda: setattr(im, 'RescaleIntercept', _fl(resc[0]['vals'][0][1])))      # restore for the steps below
+        # ---- a TWIN image alive next to this one, equal except for ONE parameter (presentation shape toggled / rescale intercept
+        # shifted / window function exchanged), read alternately with the same options: nothing one object's transform leaves behind
+        # (memoised transforms, tables keyed too coarsely) may reach the other
+        if idx % 3 == 0 and P['photometric'].startswith('MONO') and not via_file:
+            import copy as _copy
+            Pt = _copy.deepcopy(P)
+            Tt = Pt['T']
+            rt = ctx.rng('pipe-twin', idx)
+            choices = ['pres']
+            if len(Tt.get('rescale') or []) == 1 and Tt['rescale'][0]['vals'][0][1] is not None:
+                choices.append('intercept')
+            if len(Tt.get('window') or []) == 1 and Tt['window'][0]['vals'][0].get('fn') in ('LINEAR', 'LINEAR_EXACT'):
+                choices.append('function')
+            what = rt.choice(choices)
+            if what == 'pres':
+                Tt['pres_shape'] = 'IDENTITY' if Tt.get('pres_shape') == 'INVERSE' or (not Tt.get('pres_shape') and P['photometric'] == 'MONOCHROME1') else 'INVERSE'
+            elif what == 'intercept':
+                for v in Tt['rescale'][0]['vals']:
+                    if v[1] is not None:
+                        v[1] = fs(F(v[1]) + 2)
+            else:
+                for v in Tt['window'][0]['vals']:
+                    v['fn'] = 'LINEAR_EXACT' if v['fn'] == 'LINEAR' else 'LINEAR'
+            stt = call(build, Pt)
+            if stt[0] == 'ok':
+                im_t = stt[1][0]
+                flags_t = gen_flags(rt, P)
+                opts_t = {}
+                kw_t = flag_kwargs(flags_t)
+                for which in (0, 1, 0, 1):
+                    obj, Pw = (im, P) if which == 0 else (im_t, Pt)
+                    res_t = call(obj.get_frame, 1, **kw_t)
+                    case_t = {'stream': 'pipe', 'idx': idx, 'rep': 'twin', 'frame': 0, 'flags': flags_t, 'opts': opts_t, 'P': Pw,
+                              'twin_differs_in': what, 'which': 'ab'[which]}
+                    ctx.case(pipeline='twin', twin_differs_in=what)
+                    check_call(ctx, case_t, Pw, 0, flags_t, opts_t, res_t, 'get_frame', hist=False)
         # several reads on ONE object: the very first read again, after reads with other options, refused calls, batch reads
         # (and possibly the pixel-array cache): same answer; and no read has changed the image
         if first is not None:
